@@ -31,7 +31,7 @@ structure Laws (c : Comp σ π) (Good : Board → Prop) : Prop where
     Good (b.makeMove c.keys m).1
   undo_null : ∀ b, Good b → b.inCheck b.stm = false → (b.makeNull c.keys).1.undoNull (b.makeNull c.keys).2 = b
   good_null : ∀ b, Good b → b.inCheck b.stm = false → Good (b.makeNull c.keys).1
-  pick_mem : ∀ ps b hs p m p', Good b → c.pickNext ps b hs p = some (m, p') → m ∈ MoveGen.gen b
+  pick_mem : ∀ ps b hs hm p ys m p', Good b → Reach c b hm p ys → c.pickNext ps b hs p = some (m, p') → m ∈ MoveGen.gen b
   pick_complete : ∀ ps b hs hm p ys, Good b → Reach c b hm p ys → c.pickNext ps b hs p = none →
     ∀ m, m ∈ MoveGen.gen b → m ∈ ys
   q_mem : ∀ ps b hs m w, Good b → (m, w) ∈ c.qMoves ps b hs → m ∈ MoveGen.gen b
